@@ -4,7 +4,7 @@ import Cell2v.Model.Modules
 Model driver for C11.
 
 ops
-  reset n=<n> app=<0|1|2> kind=<gen|neg|shipped> start=<s0,s1,..> stop=<s0,s1,..> [cbS=<none|stop|gostop>] [cbX=<none|start|stop>] [name=..]
+  reset n=<n> app=<0|1|2> kind=<gen|neg|shipped> start=<s0,s1,..> stop=<s0,s1,..> [cbS=<none|stop|gostop|panic>] [cbX=<none|start|stop|panic>] [name=..]
         app: 0 plain ModList, 1 baseapp.App, 2 node/app.App (StartNode / StopNode through a launch mode: `Node.step`
         of the model); node only: svc=<P|M per service> mode=<reg|empty|unreg> (the node's StartMode: registered /
         empty / not registered) nodefault=1 (no default launch mode has been set) prep=0 (StartNode without Prepare)
@@ -75,6 +75,11 @@ structure Case where
   cbX : String := "none"     -- what the stop-finish callback does: none | start | stop
   fxT : Nat := 0             -- app: number of success reports of the stop phase
   over : Bool := false       -- app: the stop phase reported success twice; the case is over
+  pan : Bool := false        -- a panic of the completion callback (cbS / cbX = panic) is unwinding the Go stack
+  simple : Bool := false     -- the case fits the `Chain` machine of the model (scripts over T F ! only, callbacks none / panic,
+                             --   fixed list): every begin / fire is replayed on it as well and the two logs are compared
+  chS : Option Chain := none -- the `Chain` of the current start-phase instance
+  chX : Option Chain := none
 
 /-- AddModule(new scripted module): it gets the next index; `sync`: its scripts are T / T -/
 def Case.addMod (c : Case) (sync : Bool) : Case × String :=
@@ -162,6 +167,9 @@ where
     else
       let cb := if ph then c.cbS else c.cbX
       if cb == "none" then absorb fuel c es log frames
+      else if cb == "panic" then
+        -- the callback panics: nothing else of this `next` call runs (`finish` is its last action anyway)
+        ({ c with pan := true }, log, [])
       else
         let tgt := cb == "start"
         let log := log ++ [if tgt then "RS" else "RX"]
@@ -175,9 +183,10 @@ def drain : Nat → Case → List Frame → List String → Case × List String
   | _ + 1, c, [], log => (c, log)
   | fuel + 1, c, (_, _, []) :: fs, log => drain fuel c fs log
   | fuel + 1, c, (ph, w, ch :: rest) :: fs, log =>
-    if ch == '!' then
-      -- the module's Start/Stop panics: recovered by the wrapper, which reports failure unless the module had reported
-      let log := log ++ [(if ph then "p" else "q") ++ toString w]
+    if ch == '!' || ch == '^' then
+      -- the module's Start/Stop panics (`^`: a panic of the completion callback unwinds through it — same thing to the
+      -- wrapper, but the module logs nothing): recovered by the wrapper, which reports failure unless the module had reported
+      let log := if ch == '!' then log ++ [(if ph then "p" else "q") ++ toString w] else log
       let r := (if ph then c.wS else c.wX).step (.panic w)
       let c := if ph then { c with wS := r.1 } else { c with wX := r.1 }
       match r.2 with
@@ -185,7 +194,14 @@ def drain : Nat → Case → List Frame → List String → Case × List String
       | some (w', b') =>
         let st := c.stepOp (.call ph w' b')
         let (c', log', frames) := absorb 1000 st.1 (st.2.drop 1) log []
-        if c'.over then (c', log') else drain fuel c' (frames ++ fs) log'
+        if c'.over then (c', log')
+        else if c'.pan then
+          -- the callback panicked inside the wrapper's deferred handler: the panic leaves this module's doFunc and
+          -- unwinds into whatever called it — the enclosing module's Start/Stop, or nobody's (it escapes)
+          match fs with
+          | [] => ({ c' with pan := false }, log' ++ ["panic"])
+          | (ph', w', _) :: fs' => drain fuel { c' with pan := false } ((ph', w', ['^']) :: fs') log'
+        else drain fuel c' (frames ++ fs) log'
     else if ch == 'A' || ch == 'a' then
       let (c', tok) := c.addMod (ch == 'A')
       drain fuel c' ((ph, w, rest) :: fs) (log ++ [tok])
@@ -197,7 +213,9 @@ def drain : Nat → Case → List Frame → List String → Case × List String
       | none => drain fuel c ((ph, w, rest) :: fs) log
       | some (c1, evs) =>
         let (c', log', frames) := absorb 1000 c1 evs log []
-        if c'.over then (c', log') else drain fuel c' (frames ++ (ph, w, rest) :: fs) log'
+        if c'.over then (c', log')
+        else if c'.pan then drain fuel { c' with pan := false } ((ph, w, ['^']) :: fs) log'
+        else drain fuel c' (frames ++ (ph, w, rest) :: fs) log'
     else
       -- the module invokes the callback it was handed: the wrapper forwards it unless it has already reported a panic
       let wr := (if ph then c.wS else c.wX).step (.report w (ch == 'T'))
@@ -207,7 +225,60 @@ def drain : Nat → Case → List Frame → List String → Case × List String
       | some (w', b') =>
         let r := c.stepOp (.call ph w' b')
         let (c', log', frames) := absorb 1000 r.1 r.2 log []
-        if c'.over then (c', log') else drain fuel c' (frames ++ (ph, w, rest) :: fs) log'
+        if c'.over then (c', log')
+        else if c'.pan then
+          -- the callback panicked inside this module's report: the rest of its Start/Stop is cut off, its wrapper recovers
+          drain fuel { c' with pan := false } ((ph, w, ['^']) :: fs) log'
+        else drain fuel c' (frames ++ (ph, w, rest) :: fs) log'
+
+/-! ### the same ops on the model's `Chain` machine (nested Start/Stop calls, panicking callback)
+
+`drain` above interprets the scripts with an explicit frame stack of its own (it also has to cope with AddModule,
+re-entrant callbacks, the App guard).  For the cases that `Chain` covers the driver replays every op on `Chain.step`
+too and demands the same `Filter` events and the same escape of a panic; a difference is printed as the token
+`chain-mismatch`, which the implementation never produces.  That ties `Chain` (and the theorems about it) to the Go code. -/
+
+def simpleScript (s : List Char) : Bool := s.all fun ch => ch == 'T' || ch == 'F' || ch == '!'
+
+/-- run the scripts of the active modules on `Chain.step` until no Start/Stop is active; `rem` = what is left of
+the script of each active module (parallel to the stack) -/
+def shadowDrive : Nat → Bool → (Nat → List Char) → Chain → List (List Char) → Chain
+  | 0, _, _, c, _ => c
+  | fuel + 1, fp, scr, c, rem =>
+    match c.stack, rem with
+    | [], _ => c
+    | _ :: _, [] => c
+    | _ :: _, r :: rems =>
+      let (op, r') : COp × List Char := match r with
+        | [] => (.ret, [])
+        | ch :: t => if ch == '!' then (.panic, []) else (.report (ch == 'T'), t)
+      let c' := c.step fp op
+      let old := c.stack.length
+      let new := c'.stack.length
+      let rem' := if new == old + 1 then scr (c'.stack.headD 0) :: r' :: rems else (r' :: rems).drop (old - new)
+      shadowDrive fuel fp scr c' rem'
+
+def isFilterTok (t : String) : Bool :=
+  t.startsWith "S" || t.startsWith "X" || t.startsWith "c" || t.startsWith "d" || t.startsWith "fs" || t.startsWith "fx"
+
+def isModPanicTok (t : String) : Bool := (t.startsWith "p" || t.startsWith "q") && t != "panic"
+
+/-- the harness logs no token for the `next(false)` that a wrapper makes after a panic of its module (the module
+reported nothing); `Filter` sees it all the same: it is the call between `p<w>` and the `finish` that follows directly -/
+def expandPanics (ph : Bool) : List String → List String
+  | [] => []
+  | t :: r =>
+    if isModPanicTok t then
+      (match r with
+       | n :: _ => if n.startsWith "f" then [(if ph then "c" else "d") ++ (t.drop 1).toString ++ "F"] else []
+       | [] => []) ++ expandPanics ph r
+    else t :: expandPanics ph r
+
+/-- compare what `drain` logged for an op with what the `Chain` machine did -/
+def shadowCheck (ph : Bool) (before after : Chain) (lead : List String) (log : List String) : List String :=
+  let want := lead ++ ((after.log.drop before.log.length).drop lead.length).map (tokOfEv ph)
+  let got := expandPanics ph (log.filter fun t => isFilterTok t || isModPanicTok t)
+  if got == want && log.contains "panic" == (after.escaped && !before.escaped) then log else log ++ ["chain-mismatch"]
 
 def showLog (log : List String) : String := if log.isEmpty then "-" else " ".intercalate log
 
@@ -224,7 +295,10 @@ def step (c : Case) (line : String) : Case × String :=
       -- a node starts without modules: its launch mode registers them inside StartNode
       ({ n := n, n0 := n, readd := (kv ws "readd") == some "1", isApp := a ≥ 1, isNode := a == 2, env := env, app := App.init (if a == 2 then 0 else n),
          startS := scriptsOf ws "start" n, stopS := scriptsOf ws "stop" n,
-         cbS := (kv ws "cbS").getD "none", cbX := (kv ws "cbX").getD "none" }, "ok")
+         cbS := (kv ws "cbS").getD "none", cbX := (kv ws "cbX").getD "none",
+         simple := (scriptsOf ws "start" n).all simpleScript && (scriptsOf ws "stop" n).all simpleScript &&
+           ["none", "panic"].contains ((kv ws "cbS").getD "none") && ["none", "panic"].contains ((kv ws "cbX").getD "none") &&
+           (kv ws "readd") != some "1" }, "ok")
     | _, _ => (c, "bad-op")
   | some "begin" =>
     match phaseOf ws with
@@ -235,9 +309,18 @@ def step (c : Case) (line : String) : Case × String :=
       | some (c, evs) =>
         let (c', toks, frames) := absorb 1000 c evs [] []
         if c'.over then (c', showLog toks)
+        else if c'.pan then ({ c' with pan := false }, showLog (toks ++ ["panic"]))   -- empty list: finish(true) called by Filter itself
         else
           let (c'', log) := drain 100000 c' frames toks
-          (c'', showLog log)
+          let begun := evs.any fun e => match e with | .app (.begin _) => true | _ => false
+          if !c''.simple || !begun || c''.over then (c'', showLog log)
+          else
+            -- the same on the `Chain` machine: a fresh phase instance over the list as it is now
+            let fp := (if ph then c''.cbS else c''.cbX) == "panic"
+            let ch0 := Chain.init fp c'.app.n ph
+            let ch := shadowDrive 100000 fp (c''.script ph) ch0 (ch0.stack.map (c''.script ph))
+            let c3 := if ph then { c'' with chS := some ch } else { c'' with chX := some ch }
+            (c3, showLog (shadowCheck ph { ch0 with log := [], escaped := false } ch [] log))
   | some "fire" =>
     match phaseOf ws, kvNat ws "i", kv ws "b" with
     | some ph, some i, some b =>
@@ -248,8 +331,32 @@ def step (c : Case) (line : String) : Case × String :=
           | some "A" => let r := c.addMod true; (r.1, [r.2])
           | some "a" => let r := c.addMod false; (r.1, [r.2])
           | _ => (c, [])
-        let (c', log) := drain 100000 c [(ph, i, [if b == "T" then 'T' else 'F'])] pre
-        (c', showLog log)
+        -- the delayed report runs on a goroutine of its own: no module (and no wrapper's recover) underneath it
+        let bb := b == "T"
+        let wr := (if ph then c.wS else c.wX).step (.report i bb)
+        let c := if ph then { c with wS := wr.1 } else { c with wX := wr.1 }
+        let log := pre
+        let c := if pre.isEmpty then c else { c with simple := false }   -- the list grows: outside `Chain`
+        let res : Case × List String :=
+          match wr.2 with
+          | none => (c, log ++ [tokOfEv ph (.call i bb)])
+          | some (w', b') =>
+            let r := c.stepOp (.call ph w' b')
+            let (c', log', frames) := absorb 1000 r.1 r.2 log []
+            if c'.over then (c', log')
+            else if c'.pan then ({ c' with pan := false }, log' ++ ["panic"])
+            else drain 100000 c' frames log'
+        let c2 := res.1
+        match (if c2.simple && !c2.over then (if ph then c2.chS else c2.chX) else none) with
+        | none => (c2, showLog res.2)
+        | some ch0 =>
+          -- the same on the `Chain` machine: a report from a goroutine of its own, then whatever it sets off
+          let fp := (if ph then c2.cbS else c2.cbX) == "panic"
+          let ch0 := { ch0 with escaped := false }   -- `escaped` is about one goroutine; this report runs on a new one
+          let ch1 := ch0.step fp (.late i bb)
+          let ch := shadowDrive 100000 fp (c2.script ph) ch1 (ch1.stack.map (c2.script ph))
+          let c3 := if ph then { c2 with chS := some ch } else { c2 with chX := some ch }
+          (c3, showLog (shadowCheck ph ch0 ch [tokOfEv ph (.call i bb)] res.2))
     | _, _, _ => (c, "bad-op")
   | some "wait" => (c, "-")
   | _ => (c, "bad-op")
@@ -277,6 +384,13 @@ structure Spec where
   seenP : Bool := false     -- node: the launch mode's PrepareModules has run
   readd : Bool := false     -- node: the launch mode registers n fresh modules every time it runs
   launchable : Bool := true -- node: Prepare was called and LaunchApp finds a launch mode (named and registered, or the default)
+  cbPanicS : Bool := false  -- the start-completion callback panics when invoked (cbS=panic)
+  cbPanicX : Bool := false
+  mustFail : Option Nat := none   -- a real shipped module runs at this position with a fault injected that makes its Start fail
+  realPos : Option Nat := none    -- a real shipped module runs at this position (real=<pos>:<name>)
+  realPanicS : Bool := false      -- ... and is known to panic in its Start in this scenario (its script says `!`)
+  realPanicX : Bool := false
+  realSilent : Bool := false      -- the real module panicked without having reported where it is expected to report itself
 
 def parseTok (t : String) : Option (Bool × Ev) :=
   let cs := t.toList
@@ -349,6 +463,17 @@ def checkPhase (s : Spec) (ph : Bool) (tr : List Ev) : Option String :=
       if canonB order tr then none else some (classify ph order (if ph then s.deadS else s.deadX) tr)
     else none
 
+/-- a `panic` token (a panic reached the caller of Start / Stop / next) is legitimate only as the completion callback's
+own panic: directly after the callback's token, when the case says that this callback panics -/
+def panicsExplained (cbS cbX : Bool) : String → List String → Bool
+  | _, [] => true
+  | prev, t :: r =>
+    (t != "panic" || (cbS && prev.startsWith "fs") || (cbX && prev.startsWith "fx")) && panicsExplained cbS cbX t r
+
+/-- a shipped module whose Start was made to fail (position `p`): start-up must end there -/
+def builtinFailureIgnored (p : Nat) (tr : List Ev) : Bool :=
+  (finishes tr).contains true || (enters tr).any fun m => m > p
+
 def isAddTok (t : String) : Bool := t.startsWith "A" && ((t.drop 1).toString.toNat?).isSome
 
 def isSvcTok (t : String) : Bool := t.startsWith "V" && ((t.drop 1).toString.toNat?).isSome
@@ -405,9 +530,14 @@ def procToks (s : Spec) (prev : String) : List String → Spec × Option String
           else match parsePanic t with
             | some (true, w) =>
               if s.repS.contains w then s   -- panic after the report: nothing to demand
+              else if s.realPos == some w && !s.realPanicS then
+                -- a shipped module must report its failure itself; that ModList's wrapper stands in for it does not count
+                { s with realSilent := true, trS := s.trS ++ [.call w false], deadS := w :: s.deadS, nS := s.nNow }
               else { s with trS := s.trS ++ [.call w false], deadS := w :: s.deadS, nS := s.nNow }   -- a panic before reporting is a failure report
             | some (false, w) =>
               if s.repX.contains w then s
+              else if s.realPos == some w && !s.realPanicX then
+                { s with realSilent := true, trX := s.trX ++ [.call w false], deadX := w :: s.deadX }
               else { s with trX := s.trX ++ [.call w false], deadX := w :: s.deadX }
             | none => s
       procToks s' t rest
@@ -423,6 +553,18 @@ def specLine (s : Spec) (line : String) : Spec × String :=
       let svc := ((kv ws "svc").getD "").toList
       ({ n := (kvNat ws "n").getD 0, nNow := (kvNat ws "n").getD 0, nS := (kvNat ws "n").getD 0, nX := (kvNat ws "n").getD 0, isApp := (kvNat ws "app").getD 0 ≥ 1, kind := (kv ws "kind").getD "",
          isNode := (kvNat ws "app").getD 0 == 2, readd := (kv ws "readd") == some "1",
+         cbPanicS := (kv ws "cbS") == some "panic", cbPanicX := (kv ws "cbX") == some "panic",
+         realPos := (match ((kv ws "real").getD "").splitOn ":" with | [pos, _] => pos.toNat? | _ => none),
+         realPanicS := (match ((kv ws "real").getD "").splitOn ":" with
+           | [pos, _] => (((((kv ws "start").getD "").splitOn ",").getD (pos.toNat?.getD 0) "").startsWith "!") | _ => false),
+         realPanicX := (match ((kv ws "real").getD "").splitOn ":" with
+           | [pos, _] => (((((kv ws "stop").getD "").splitOn ",").getD (pos.toNat?.getD 0) "").startsWith "!") | _ => false),
+         mustFail :=
+           (match ((kv ws "real").getD "").splitOn ":" with
+            | [pos, name] =>
+              if (name == "cluster" && (kv ws "cluster") == some "badaddr") ||
+                 (name == "actor" && ((kv ws "addr") == some "inuse" || (kv ws "addr") == some "foreign")) then pos.toNat? else none
+            | _ => none),
          launchable := (kv ws "prep") != some "0" &&
            (((kv ws "mode").getD "reg") == "reg" || (kv ws "nodefault") != some "1"),
          svcToks := ((List.range svc.length).filter fun i => svc.getD i 'M' == 'P').map fun i => "V" ++ toString i }, "ok")
@@ -464,7 +606,10 @@ def specLine (s : Spec) (line : String) : Spec × String :=
           | none, some v => some v
           | none, none =>
             if toks.contains "undelivered" && !nowBroken then some "C11/finish-missing"
-            else if toks.contains "panic" && !nowBroken then some "C11/panic-escapes"
+            else if toks.contains "panic" && !nowBroken && !panicsExplained s.cbPanicS s.cbPanicX "" toks then some "C11/panic-escapes"
+            else if s.realSilent then some "C11/module-never-completes"
+            else if (match s.mustFail with | some p => s.begunS && builtinFailureIgnored p s.trS | none => false) then
+              some "C11/builtin-module-failure-not-reported"
             else if unknown then some "C11/unreadable-log"
             else if s.isNode && !nowBroken && !servicesOK s.svcToks [] toks then some "C11/services-not-started-before-report"
             else match (if s.begunS then checkPhase s true s.trS else none) with
